@@ -11,6 +11,7 @@ from __future__ import annotations
 import errno
 import itertools
 import os
+import pathlib
 import shutil
 import signal
 import subprocess
@@ -67,7 +68,8 @@ def run_writer(directory: str, scn: dict, dest_name: str = 'dest.bin') -> str:
     from srctools import AtomicWriter
     sub = os.path.join(directory, 'newdir', 'deep') if scn.get('missing_parent') else directory
     dest = os.path.join(sub, dest_name)
-    writer = AtomicWriter(dest, is_bytes=True) if scn['is_bytes'] else AtomicWriter(dest, is_bytes=False, encoding='latin1')
+    dest_arg: Any = pathlib.Path(dest) if len(scn['writes']) % 2 else dest  # str and os.PathLike are both documented
+    writer = AtomicWriter(dest_arg, is_bytes=True) if scn['is_bytes'] else AtomicWriter(dest_arg, is_bytes=False, encoding='latin1')
     try:
         if scn.get('reenter'):
             # "can be repeated": a first complete cycle with the same writer object (it commits the OLD bytes again,
